@@ -222,6 +222,40 @@ def parsed_ref(form, kind, K):
     return Harness(body, args, describe=lambda a: dict(a, form=form, kind=kind), bounds={'form': form, 'kind': kind, 'K': K})
 
 
+def parsed_composite(kind, K=1):
+    """composite reference parsed from a document whose columns are written in another order than the tables define them"""
+    args = [('block', 'bool')] + hole_args('x', K, Cls('WORD'))
+
+    def body(a):
+        x = 'c_' + text_of(a, 'x', K)
+        doc = ('Table a {\n  id int\n  ' + x + ' int\n  z int\n}\nTable s.b {\n  k1 int\n  k2 int\n  k3 int\n}\n')
+        refline = 'a.(z, ' + x + ') ' + kind + ' s.b.(k3, k1)'
+        doc += ('Ref {\n  ' + refline + '\n}\n') if a['block'] else ('Ref: ' + refline + '\n')
+        try:
+            db = docs.parse(doc)
+            sql = db.sql
+        except Exception:
+            return 'well-formed document rejected or .sql raised'
+        reached()
+        qa, qb = ('a',), ('s', 'b')
+        ta = ('table', qa, (_col('id'), _col(x), _col('z')), (), ())
+        tb = ('table', qb, (_col('k1'), _col('k2'), _col('k3')), (), ())
+        if kind == '<>':
+            jq = ('a_b',)
+            jcols = (_col('a_z', nn=True), _col('a_' + x, nn=True), _col('b_k3', nn=True), _col('b_k1', nn=True))
+            exp = [ta, tb, ('table', jq, jcols, (tuple(('col', c[0]) for c in jcols),), ()),
+                   ('alter', jq, (None, ('a_z', 'a_' + x), qa, ('z', x), None, None)),
+                   ('alter', jq, (None, ('b_k3', 'b_k1'), qb, ('k3', 'k1'), None, None))]
+            return _check(sql, exp, True)
+        if kind == '<':
+            fk = (None, ('k3', 'k1'), qa, ('z', x), None, None)
+            return _check(sql, [ta, tb, ('alter', qb, fk)])
+        fk = (None, ('z', x), qb, ('k3', 'k1'), None, None)
+        return _check(sql, [ta, tb, ('alter', qa, fk)])
+
+    return Harness(body, args, describe=lambda a: dict(a, kind=kind), bounds={'kind': kind, 'K': K})
+
+
 def instances(tier):
     out = []
 
@@ -249,6 +283,9 @@ def instances(tier):
         add(f'one/{kn}/composite/s-public/actions', 'one_ref', dict(base[1][1], kind=kind, K=K, mode='actions'), T)
     for k1, k2 in (('>', '<'), ('<', '-'), ('-', '>'), ('<', '<')):
         add(f'two/{k1}{k2}/K{K}'.replace('<', 'lt').replace('>', 'gt').replace('-', 'one'), 'two_refs', {'k1': k1, 'k2': k2, 'K': K}, T)
+    for kind in ('>', '<', '<>'):
+        kn = {'>': 'gt', '<': 'lt', '<>': 'm2m'}[kind]
+        add(f'parsed_composite/{kn}', 'parsed_composite', {'kind': kind, 'K': 1 if quick else 2}, T)
     for form in ('inline', 'short', 'block'):
         for kind in ('>', '<', '-'):
             kn = {'>': 'gt', '<': 'lt', '-': 'one'}[kind]
